@@ -61,9 +61,17 @@ Step == /\ l > 0 /\ l <= Len(Traces[tid].steps)
                real == { x \in f : x # "UNJUDGED_Cycle" } IN
            /\ (real # {} => PrintT("V|" \o tr.id \o "|FAIL|" \o JoinSet({ x \o "@" \o ToString(l) : x \in real })))
            /\ nf' = nf + (IF real = {} THEN 0 ELSE 1)
-           \* resynchronise on what the implementation shows - except after a REJECTED declaration: by C10 it changed nothing, so
-           \* the specification's state stands (a flag smuggled in by a rejected call must not explain a later assembly, C20)
-           /\ trel' = IF s.call # "assemble" /\ s.t = "raise" THEN trel ELSE AsRel(s.attrs)
+           \* The specification's state evolves by the SPECIFICATION's semantics of the declared calls (C20 speaks about the chain
+           \* the declarations produce: a flag smuggled in by a rejected call, or a re-declaration that silently did nothing, must
+           \* not explain a later assembly).  Where several outcomes are allowed (a friction within rounding distance of a
+           \* threshold) the one the implementation took is followed; only if none matches AND the specification is ambiguous
+           \* is the state re-synchronised on what the implementation shows.
+           /\ trel' = IF s.call = "assemble" THEN trel
+                      ELSE LET outs == Outcomes(tr.objs, trel, s)
+                               match == { o \in outs : o.t = s.t /\ (o.t = "ok" \/ o.err = s.err) /\ RelEq(s.attrs, o.rel) } IN
+                           IF match # {} THEN (CHOOSE o \in match : TRUE).rel
+                           ELSE IF Cardinality(outs) = 1 THEN (CHOOSE o \in outs : TRUE).rel
+                           ELSE AsRel(s.attrs)
            /\ tpts' = IF s.call = "assemble" /\ s.t = "ok"
                       THEN Append(tpts, [elements |-> s.elements, selfLocking |-> s.selfLocking]) ELSE tpts
         /\ l' = l + 1 /\ UNCHANGED tid
